@@ -855,9 +855,15 @@ func (u *PacketUnderlay) cleanSessions() {
 		}
 		if time.Now().UnixMicro()-session.lastRXTime.Load() > idleSessionTimeout.Microseconds() {
 			log.Debugf("Found idle %v", session)
-			if err := u.RemoveSession(session); err != nil {
-				log.Debugf("%v RemoveSession() failed: %v", u, err)
-			}
+			// Closing a session gracefully can take up to a second. This runs
+			// in the event loop that serves every session of the underlay, so
+			// the idle sessions of one peer must not be closed one after
+			// another here.
+			go func() {
+				if err := u.RemoveSession(session); err != nil {
+					log.Debugf("%v RemoveSession() failed: %v", u, err)
+				}
+			}()
 		}
 		return true
 	})
